@@ -1314,6 +1314,7 @@ func main() {
 	t7 := time.Now()
 	largeFamily(largeSizes)
 	edgeFamily()
+	widthFamily()
 	duplexFamily()
 	t8 := time.Now()
 
